@@ -139,4 +139,107 @@ Section FLg.
     - intros cur cont. apply wc_unfold.
     - intros cur ty0. apply cmp_unfold.
   Qed.
+
+  (* ---------- label ---------- *)
+  Lemma label_core : forall N l t, flw p cp N t ->
+    forall n, (n <= N)%nat -> forall G cur ty0 st s0 st' e ce k kv (S : cident -> Prop),
+    wc (codata_of p) cur false t (CXVar CCns (new_id l) (compile_ty ty0)) st = Ok (s0, st') ->
+    frag p t = true -> ws (mkcb (new_id l) CCns (compile_ty ty0) :: G) t = true -> nocap t = true ->
+    ~ In l (bnd t) -> In l (st_used_vars st) ->
+    lifted_ok cp st' -> Gused G st -> incl (bnd t) (st_used_vars st) ->
+    erel p cp n G S e ce -> (forall x, Sof (fvs s0) x -> x <> new_id l -> S x) ->
+    Kb p cp n k kv ->
+    sim p cp n (FEval t ((l, FbK k) :: e) k) (SNext (Run s0 ((new_id l, BK kv) :: ce))).
+  Proof.
+    intros N l t H n Hn G cur ty0 st s0 st' e ce k kv S Hwc Hf Hw Hnc Hlb Hlu Hl HG Hbn He HS Hk.
+    apply (H n Hn (mkcb (new_id l) CCns (compile_ty ty0) :: G) cur _ st s0 st' _ _ k Hwc Hf Hw Hnc Hl).
+    - intros bb [E|Hbb]; [subst bb; exists l; split; [reflexivity | exact Hlu] | apply HG; exact Hbb].
+    - exact Hbn.
+    - intros x Hx. simpl in Hx. destruct Hx as [Hx|[]]. subst x. exists l. split; [reflexivity | exact Hlu].
+    - intros x Hx Hin. simpl in Hin. destruct Hin as [Hin|[]]. apply new_id_inj in Hin. subst x. exact (Hlb Hx).
+    - exact I.
+    - eapply (erel_bind1 p cp n G S (Sof (fvs s0)) e ce l CCns (compile_ty ty0) (FbK k) (BK kv)); auto.
+      simpl. exact I.
+    - apply CK_covar with (kv := kv); [|exact Hk]. rewrite clookup_cons, cid_eqb_refl. reflexivity.
+  Qed.
+
+  Lemma fl_label : forall N l t ty, flw p cp N t -> flw p cp N (FLabel l t ty) /\ flc p cp N (FLabel l t ty).
+  Proof.
+    intros N l t ty H. split.
+    - intros n Hn G cur cont st s st' e ce k Hwc Hf Hws Hnc Hl HG Hbn Hni H8 Hsh He HCK.
+      rewrite wc_unfold in Hwc. apply wc_label_inv in Hwc. destruct Hwc as [ty0 [s0 [Ety [Hs0 Es]]]]. subst s ty.
+      simpl in Hf, Hws, Hnc.
+      apply andb_prop in Hf. destruct Hf as [Hdt Hf]. apply andb_prop in Hnc. destruct Hnc as [Hlb Hnc].
+      apply negb_true_iff in Hlb. apply mem_false_not_In in Hlb.
+      assert (Hcd : is_codata cp (compile_ty ty0) = false).
+      { rewrite (is_codata_compile p cp Hcod). unfold data_ty in Hdt. apply negb_true_iff in Hdt. exact Hdt. }
+      destruct (CK_head p cp n k cont ce _ Hsh HCK) as [kv [Hh Hk]].
+      { intros bb Hbb. apply Sof_in. apply fvs_cut. right. exact Hbb. }
+      destruct n as [|n1]; [apply sim_zero|].
+      eapply sim_fstep; [reflexivity|].
+      apply sim_cstep. rewrite (cstep_cut_mu cp); [|exact Hsh]. rewrite Hh. unfold interact_mu. rewrite Hcd.
+      cbv iota.
+      eapply (label_core N l t H n1 ltac:(lia) G cur ty0 st s0 st' e ce k kv (Sof (fvs (CCut (CMu CPrd (new_id l) s0 (compile_ty ty0)) (compile_ty ty0) cont)))); eauto.
+      + apply Hbn. simpl. left. reflexivity.
+      + intros z Hz. apply Hbn. simpl. right. exact Hz.
+      + eapply erel_weaken; [exact He | | lia]. intros x Hx. exact Hx.
+      + intros x Hx Hne. unfold Sof in *. apply in_cnames_inv in Hx. destruct Hx as [bb [Hbb E]]. subst x.
+        apply in_cnames. apply fvs_cut. left. apply fvt_mu_2; [exact Hbb|]. intros Eb. subst bb. apply Hne. reflexivity.
+      + eapply Kb_mono; [exact Hk | lia].
+    - intros n Hn G cur ty' st c st' e ce k m Hc Hf Hws Hnc Hl HG Hbn Hty He HK.
+      rewrite cmp_unfold in Hc. apply cmp_label_inv in Hc. destruct Hc as [ty0 [s0 [Ety [Hs0 Ec]]]]. subst c ty.
+      simpl in Hf, Hws, Hnc.
+      apply andb_prop in Hf. destruct Hf as [Hdt Hf]. apply andb_prop in Hnc. destruct Hnc as [Hlb Hnc].
+      apply negb_true_iff in Hlb. apply mem_false_not_In in Hlb.
+      assert (Hcd : is_codata cp (compile_ty ty0) = false).
+      { rewrite (is_codata_compile p cp Hcod). unfold data_ty in Hdt. apply negb_true_iff in Hdt. exact Hdt. }
+      destruct n as [|n1]; [apply sim_zero|].
+      eapply sim_fstep; [reflexivity|].
+      apply sim_cstep. simpl. rewrite Hcd.
+      eapply (label_core N l t H n1 ltac:(lia) G cur ty0 st s0 st' e ce k (KRet m) (Sof (fvt (CMu CPrd (new_id l) s0 (compile_ty ty0))))); eauto.
+      + apply Hbn. simpl. left. reflexivity.
+      + intros z Hz. apply Hbn. simpl. right. exact Hz.
+      + eapply erel_weaken; [exact He | | lia]. intros x Hx. exact Hx.
+      + intros x Hx Hne. apply names_neq_mu; assumption.
+      + eapply Kb_mono; [exact HK | lia].
+  Qed.
+
+  (* ---------- goto ---------- *)
+  Lemma fl_goto : forall N l t ty, flw p cp N t -> flw p cp N (FGoto l t ty) /\ flc p cp N (FGoto l t ty).
+  Proof.
+    intros N l t ty H.
+    assert (HW : flw p cp N (FGoto l t ty)).
+    { intros n Hn G cur cont st s st' e ce k Hwc Hf Hws Hnc Hl HG Hbn Hni H8 Hsh He HCK.
+      rewrite wc_unfold in Hwc. apply wc_goto_inv in Hwc. destruct Hwc as [ty0 [Ety Hs]].
+      simpl in Hf, Hws, Hnc.
+      apply andb_prop in Hws. destruct Hws as [Hw1 Hw2]. apply andb_prop in Hnc. destruct Hnc as [Hlb Hnc].
+      apply negb_true_iff in Hlb. apply mem_false_not_In in Hlb.
+      apply var_ok_inv in Hw1. destruct Hw1 as [ty1 [E1 Hg]]. rewrite Ety in E1. injection E1 as E1. subst ty1.
+      destruct n as [|n1]; [apply sim_zero|].
+      destruct (flookup e l) as [[val|k']|] eqn:El;
+        [eapply sim_stuck; simpl; rewrite El; reflexivity | | eapply sim_stuck; simpl; rewrite El; reflexivity].
+      eapply sim_fstep; [simpl; rewrite El; reflexivity|].
+      apply (H n1 ltac:(lia) G cur _ st s st' e ce k' Hs Hf Hw2 Hnc Hl HG).
+      - intros z Hz. apply Hbn. exact Hz.
+      - intros x Hx. simpl in Hx. destruct Hx as [Hx|[]]. subst x.
+        destruct (HG _ (gl_In _ _ _ Hg)) as [y [Ey Hy]]. exists y. split; [exact Ey | exact Hy].
+      - intros x Hx Hin. simpl in Hin. destruct Hin as [Hin|[]]. apply new_id_inj in Hin. subst x. exact (Hlb Hx).
+      - exact I.
+      - eapply erel_weaken; [exact He | | lia]. intros x Hx. exact Hx.
+      - (* the target covariable means the continuation found in the source environment *)
+        assert (Hcov : Sof (fvs s) (new_id l) -> exists kv, clookup ce (new_id l) = Some (BK kv) /\ Kb p cp (S n1) k' kv).
+        { intros Hs0. destruct (erel_covar p cp (S n1) G _ e ce l _ He Hg Hs0) as [k0 [kv0 [E1 [E2 E3]]]].
+          rewrite El in E1. injection E1 as E1. subst k0. eauto. }
+        split.
+        + intros bb Hbb Hs0. apply fvt_var in Hbb. subst bb. simpl in *. destruct (Hcov Hs0) as [kv [E2 _]].
+          exists (BK kv). split; [exact E2 | reflexivity].
+        + intros Hall. destruct (Hcov (Hall _ (or_introl eq_refl))) as [kv [E2 E3]].
+          intros ce' Ha. exists kv. split; [|eapply Kb_mono; [exact E3 | lia]].
+          simpl. rewrite (Ha (new_id l)); [rewrite E2; reflexivity | simpl; left; reflexivity]. }
+    split; [exact HW|].
+    apply (flc_default p cp N (FGoto l t ty)
+             (fun cur _ => wc_goto false l (wc (codata_of p) cur false t) ty (fterm_type t))); [| |exact HW].
+    - intros cur cont. apply wc_unfold.
+    - intros cur ty0. apply cmp_unfold.
+  Qed.
 End FLg.
